@@ -40,6 +40,9 @@ def check(ctx):
     for tu in ctx.tus:
         info = TUInfo(tu)
         ncfg += check_shape(ctx, tu, maxlen)
+        # a copied list is a callback list too: its initial shape must be the well-formed image of its source
+        from .c10 import check_clone_shape
+        check_clone_shape(ctx, tu, maxlen, rule='C01.S')
         n = L.check_traversal(ctx, 'C01.T', tu, info)
         check_loop_exits(ctx, tu)
         check_args(ctx, tu)
